@@ -1,6 +1,8 @@
 package conf
 
 import (
+	"strconv"
+
 	"code.cloudfoundry.org/bytefmt"
 
 	"github.com/bluenviron/mediamtx/internal/conf/jsonwrapper"
@@ -11,7 +13,14 @@ type StringSize uint64
 
 // MarshalJSON implements json.Marshaler.
 func (s StringSize) MarshalJSON() ([]byte, error) {
-	return []byte(`"` + bytefmt.ByteSize(uint64(s)) + `"`), nil
+	out := bytefmt.ByteSize(uint64(s))
+
+	// bytefmt.ByteSize keeps one decimal only; use it when it is exact, otherwise emit bytes
+	if v, err := bytefmt.ToBytes(out); err != nil || v != uint64(s) {
+		out = strconv.FormatUint(uint64(s), 10) + "B"
+	}
+
+	return []byte(`"` + out + `"`), nil
 }
 
 // UnmarshalJSON implements json.Unmarshaler.
